@@ -30,6 +30,18 @@ type userOp struct{ text, ctx string }
 func (o userOp) String() string  { return o.text }
 func (o userOp) Context() string { return o.ctx }
 
+// zeroOp and enumOp are user-defined Operators whose value is the ZERO value of its type (an empty struct;
+// the first constant of an enumeration): operators like any other.
+type zeroOp struct{}
+
+func (zeroOp) String() string  { return "~=" }
+func (zeroOp) Context() string { return "approx" }
+
+type enumOp int
+
+func (e enumOp) String() string  { return [...]string{"=~", "!~"}[int(e)%2] }
+func (e enumOp) Context() string { return "pattern" }
+
 // ptrOp is a user-defined Operator with pointer receiver (a nil *ptrOp is a typed nil).
 type ptrOp struct{ text string }
 
@@ -261,8 +273,28 @@ func isNilPtr(x any) bool {
 // alias of one, or a non-nil pointer to either)": plain type switches over the types the harness itself
 // puts into trees. The reference walks use them instead of the library's ConvertStack /
 // ConvertCondition, so that a defect in the library's converters cannot hide inside the oracle.
+// peelPointers strips all but the last pointer level (***T -> *T): a pointer to a pointer to ... a Stack
+// leads to that Stack, however many hops it takes; a nil hop leads nowhere.
+func peelPointers(v any) any {
+	if v == nil {
+		return nil
+	}
+	rv := reflect.ValueOf(v)
+	for rv.Kind() == reflect.Ptr && rv.Type().Elem().Kind() == reflect.Ptr {
+		if rv.IsNil() {
+			return nil
+		}
+		rv = rv.Elem()
+	}
+	if rv.Kind() == reflect.Ptr && rv.IsNil() {
+		return v
+	}
+	return rv.Interface()
+}
+
 func refAsStack(v any) (stackage.Stack, bool) {
 	var s stackage.Stack
+	v = peelPointers(v)
 	switch tv := v.(type) {
 	case stackage.Stack:
 		s = tv
@@ -303,6 +335,7 @@ func hollowHandle(h any) bool {
 
 func refAsCond(v any) (stackage.Condition, bool) {
 	var c stackage.Condition
+	v = peelPointers(v)
 	switch tv := v.(type) {
 	case stackage.Condition:
 		c = tv
